@@ -1187,8 +1187,13 @@ impl RepDefUnraveler {
         levels_to_rep.push(0);
         for meaning in def_meaning.as_ref() {
             match meaning {
-                DefinitionInterpretation::AllValidItem | DefinitionInterpretation::AllValidList => {
+                DefinitionInterpretation::AllValidItem => {
                     // There is no corresponding level, so nothing to put in levels_to_rep
+                }
+                DefinitionInterpretation::AllValidList => {
+                    // No level of its own either but it is still a list: the levels of the layers
+                    // above it only become visible once this list has been unraveled
+                    rep_counter += 1;
                 }
                 DefinitionInterpretation::NullableItem => {
                     // Some null structs are not visible at inner rep levels in cases like LIST<STRUCT<LIST<...>>>
